@@ -35,8 +35,10 @@ end C19io
 open C19io
 
 /-- `{"op":"header","header":s,"rule":"full"|"accession"|"gene","length":n}` → the annotation's fields
-    or `{"err":"bad_existence"}` -/
-def handleHeader (j : Json) : R Json := do
+    or `{"err":"bad_existence"}`.  `charLevel = true` (op "header") runs the CHARACTER-level
+    functions `annotateChar` (the `str.split(" OS=")` mirror); `false` (op "header_token") the
+    word-level `annotate`.  `annotateChar_eq`: the two agree on every header. -/
+def handleHeaderWith (charLevel : Bool) (j : Json) : R Json := do
   let h ← jstr (← jget j "header")
   let rule ← match jgetOpt j "rule" with
     | some r => jrule r
@@ -44,9 +46,12 @@ def handleHeader (j : Json) : R Json := do
   let len ← match jgetOpt j "length" with
     | some n => jnat n
     | none => pure 0
-  match annotate rule h.toList len with
+  match (if charLevel then annotateChar rule h.toList len else annotate rule h.toList len) with
   | .ok a => pure (ofAnnotation a)
   | .error e => pure (ofErr e.tag)
+
+def handleHeader : Json → R Json := handleHeaderWith true
+def handleHeaderToken : Json → R Json := handleHeaderWith false
 
 /-- `{"op":"annotations","files":[[line…]…]|null,"contains_decoys":b,"gene_level":b,"use_uniprot":b,
      "rows":[proteinIds…]}` → `{"annotations":[[id|null,{…}]…],"pseudo":b,"columns":[[names,genes,headers]…]}`
@@ -81,5 +86,5 @@ def handleRecords (j : Json) : R Json := do
 
 /-- protocol handlers of property C19: (op name, handler) -/
 def handlersC19 : List (String × (Json → R Json)) :=
-  [("header", handleHeader), ("annotations", handleAnnotations), ("fasta_records", handleRecords)]
+  [("header", handleHeader), ("header_token", handleHeaderToken), ("annotations", handleAnnotations), ("fasta_records", handleRecords)]
 end PgFdr.Driver
